@@ -210,11 +210,11 @@ struct GridCase {
 pub fn run(ctx: &mut Ctx) -> Vec<Violation> {
     let mut out = vec![];
     let t = ctx.tier;
-    out.extend(run_prop(ctx, "full-enum", t.pick(64, 600), 100, env_case(true), |ctx, c| {
+    out.extend(run_prop(ctx, "full-enum", t.pick(640, 4_000), 100, env_case(true), |ctx, c| {
         ctx.sample("env", 2, c);
         check_env(ctx, c)
     }));
-    out.extend(run_prop(ctx, "sampled", t.pick(400, 6_000), 100, env_case(false), |ctx, c| check_env(ctx, c)));
+    out.extend(run_prop(ctx, "sampled", t.pick(4_000, 40_000), 100, env_case(false), |ctx, c| check_env(ctx, c)));
     if t == Tier::Thorough {
         // every wrapped length 16..=1024 x plaintext lengths {32,33,48,63,64}, full enumeration
         let pls = [32u8, 33, 48, 63, 64];
